@@ -19,8 +19,9 @@ import (
 //	<pkg:function>[+<pkg:function>...](<alt>;<alt>;...)       alt  = spec,spec,...   one spec per argument position
 //	spec = *  |  name|name|...  |  !name|name|...  |  ...  (last position only: any further arguments)
 //
-// where a name is the name of a pool entry (the argument "type") or s / i / c for a literal string /
-// integer / character argument. A case is excluded when the function is the same and one alternative
+// where a name is the name of a pool entry (the argument "type"), or s / i / c / k / e for a literal
+// string / integer / character / keyword / evaluated-source argument, or an exact literal descriptor such as
+// i:-1 or k:start. A case is excluded when the function is the same and one alternative
 // matches its argument tuple. This is a predicate over the case, never over the outcome.
 
 type pattern struct {
@@ -97,7 +98,7 @@ alts:
 			if sp.any {
 				continue
 			}
-			if sp.names[argType(args[i])] == sp.neg {
+			if (sp.names[argType(args[i])] || sp.names[args[i]]) == sp.neg {
 				continue alts
 			}
 		}
@@ -171,11 +172,11 @@ var typeMembers = map[string][]string{
 	"symbol":               {"nil", "t", "sym", "fsym", "kwend", "kwkey"},
 	"keyword":              {"kwend", "kwkey"},
 	"nil":                  {"nil"},
-	"sequence":             {"nil", "list12", "nested", "alist", "lamx", "vec0", "vec12", "bitv", "octets", "fpvec", "str0", "str"},
-	"sequemce":             {"nil", "list12", "nested", "alist", "lamx", "vec0", "vec12", "bitv", "octets", "fpvec", "str0", "str"},
-	"vector":               {"vec0", "vec12", "bitv", "octets", "fpvec", "str0", "str"},
+	"sequence":             {"nil", "list12", "nested", "alist", "lamx", "vec0", "vec12", "bitv", "octets", "fpvec", "str0", "str", "strl", "stral", "strj"},
+	"sequemce":             {"nil", "list12", "nested", "alist", "lamx", "vec0", "vec12", "bitv", "octets", "fpvec", "str0", "str", "strl", "stral", "strj"},
+	"vector":               {"vec0", "vec12", "bitv", "octets", "fpvec", "str0", "str", "strl", "stral", "strj"},
 	"simple-vector":        {"vec0", "vec12"},
-	"array":                {"vec0", "vec12", "bitv", "octets", "fpvec", "str0", "str", "arr2d"},
+	"array":                {"vec0", "vec12", "bitv", "octets", "fpvec", "str0", "str", "strl", "stral", "strj", "arr2d"},
 	"bit-array":            {"bitv"},
 	"simple-bit-array":     {"bitv"},
 	"octets":               {"octets"},
